@@ -844,6 +844,7 @@ func TestVerifC20(t *testing.T) {
 	c20AccountKey(t, o, ctx, ca)
 	c20TwoCAs(t, o, ctx, ca)
 	c20RefusedOrder(t, o, ctx, ca)
+	c20DistinctCAs(t, o)
 	phase("key_and_two_cas")
 	c20URLs(t, o, rng)
 	phase("urls")
@@ -918,6 +919,25 @@ func c20AccountKey(t *testing.T, o *vOut, ctx context.Context, ca *vCA) {
 // A CA that refuses an ORDER of an account it knows perfectly well (unauthorized, rateLimited,
 // rejectedIdentifier …) has said nothing about the account: it stays in storage as it is, it is
 // not registered again, later orders use it.
+// "one account per CA": two directory URLs that are two CAs (another host, another PORT, another
+// path) keep their accounts in two folders — one CA's account-does-not-exist never touches the other's
+func c20DistinctCAs(t *testing.T, o *vOut) {
+	_, cfg := vNewCfg(vNewMem(), nil)
+	defer cfg.certCache.Stop()
+	iss := NewACMEIssuer(cfg, ACMEIssuer{Logger: zap.NewNop()})
+	urls := []string{"https://pki.internal.example:8443/acme/directory", "https://pki.internal.example:9443/acme/directory",
+		"https://pki.internal.example/acme/directory", "https://pki.internal.example:8443/acme/staging/directory",
+		"https://pki2.internal.example:8443/acme/directory", "https://[2001:db8::1]:8443/acme/directory", "https://[2001:db8::1]:9443/acme/directory"}
+	for i, a := range urls {
+		for _, b := range urls[i+1:] {
+			if pa, pb := iss.storageKeyUsersPrefix(a), iss.storageKeyUsersPrefix(b); pa == pb {
+				o.Mon("C20 accounts-of-two-cas-share-a-folder", map[string]any{"ca_1": a, "ca_2": b, "folder": pa})
+			}
+			o.Stat("ca_pairs_checked", 1)
+		}
+	}
+}
+
 func c20RefusedOrder(t *testing.T, o *vOut, ctx context.Context, ca *vCA) {
 	for _, problem := range []string{"unauthorized", "rateLimited", "rejectedIdentifier", "serverInternal"} {
 		c20Reset()
